@@ -413,7 +413,8 @@ def dig_4connectivity(
     for idx0 in seq[::-1]:  # up- to downstream
         if mask is not None and not mask[idx0]:
             continue
-        idx_ds = idxs_ds[idx0]
+        # index arithmetic on python ints: unsigned index types would wrap around
+        idx0, idx_ds = int(idx0), int(idxs_ds[idx0])
         dd = abs(idx0 - idx_ds)
         if dd > 1 and dd != ncol:  # diagonal
             idxs_d4 = _local_d4(idx0, idx_ds, ncol)  # indices of adjacent d4 cells
